@@ -228,6 +228,7 @@ def mutate_descriptor(d, rng):
 DEFAULT_WEIGHTS = {
     'metric': 10, 'alert': 6, 'component': 5, 'operational': 3, 'rt': 3, 'context': 7, 'location': 2,
     'descr_update': 4, 'descr_create': 4, 'descr_delete': 3, 'descr_recreate': 2, 'descr_parent_child': 3, 'descr_with_state': 3,
+    'descr_multi': 3,
     'empty': 1, 'abort': 2, 'unget': 1, 'reject': 2,
 }
 
@@ -277,10 +278,10 @@ def _gen_kind(kind, rng, mdib, cat, memo):
             return None
         return {'op': 'location', 'descr': rng.choice(locs), 'loc': {k: rng.choice([None, rng.choice(STR_POOL)]) for k in ('fac', 'poc', 'bed', 'bldng', 'flr', 'rm')}}
     if kind == 'descr_update':
-        pool = cat['metric'] + cat['alert'] + cat['channel'] + cat['vmd']
+        pool = cat['metric'] + cat['alert'] + cat['channel'] + cat['vmd'] + cat['context'] * 2
         if not pool:
             return None
-        return {'op': 'descr_update', 'handles': rng.sample(pool, min(len(pool), rng.choice([1, 1, 2])))}
+        return {'op': 'descr_update', 'handles': sorted(set(rng.sample(pool, min(len(pool), rng.choice([1, 1, 2])))))}
     if kind == 'descr_create':
         if not cat['channel']:
             return None
@@ -311,6 +312,39 @@ def _gen_kind(kind, rng, mdib, cat, memo):
         else:
             child = f'pc{memo["n"]}_{rng.randrange(1000)}'
         return {'op': 'descr_parent_child', 'sub': sub, 'parent': parent, 'child': child}
+    if kind == 'descr_multi':
+        # several related descriptors in ONE transaction
+        sub = rng.choice(['two_children', 'child_then_parent', 'parent_then_child', 'delete_two_siblings', 'create_and_delete_sibling',
+                          'recreate_in_one'])
+        chans = [c for c in cat['channel']]
+        if not chans:
+            return None
+        parent = rng.choice(chans)
+        children = sorted(d.Handle for d in mdib.descriptions.parent_handle.get(parent, []))
+        n = memo['n']
+        if sub == 'two_children':
+            steps = [['create', f'm{n}a_{rng.randrange(1000)}', parent], ['create', f'm{n}b_{rng.randrange(1000)}', parent]]
+        elif sub in ('child_then_parent', 'parent_then_child'):
+            withkids = [c for c in chans if mdib.descriptions.parent_handle.get(c)]
+            if not withkids or len(chans) < 2:
+                return None
+            parent = rng.choice(withkids)
+            child = sorted(d.Handle for d in mdib.descriptions.parent_handle.get(parent, []))[0]
+            steps = [['delete', child], ['delete', parent]] if sub == 'child_then_parent' else [['delete', parent], ['delete', child]]
+        elif sub == 'delete_two_siblings':
+            if len(children) < 2:
+                return None
+            steps = [['delete', c] for c in rng.sample(children, 2)]
+        elif sub == 'create_and_delete_sibling':
+            if not children:
+                return None
+            steps = [['create', f'm{n}c_{rng.randrange(1000)}', parent], ['delete', rng.choice(children)]]
+            rng.shuffle(steps)
+        else:  # delete a descriptor and create the same handle again in one transaction is rejected by the API ('already in updated set')
+            if not children:
+                return None
+            steps = [['delete', children[0]], ['create', children[0], parent]]
+        return {'op': 'descr_multi', 'sub': sub, 'steps': steps, 'iface': 'classic'}
     if kind == 'descr_with_state':
         pool = cat['metric'] + cat['alert']
         if not pool:
@@ -319,7 +353,8 @@ def _gen_kind(kind, rng, mdib, cat, memo):
     if kind == 'empty':
         return {'op': 'empty', 'kind': rng.choice(['metric', 'alert', 'component', 'operational', 'context', 'descriptor', 'rt'])}
     if kind == 'abort':
-        base = _gen_kind(rng.choice(['metric', 'alert', 'component', 'context', 'descr_update', 'descr_create']), rng, mdib, cat, memo)
+        base = _gen_kind(rng.choice(['metric', 'alert', 'component', 'context', 'descr_update', 'descr_create', 'descr_recreate', 'descr_recreate',
+                                     'descr_delete', 'descr_multi']), rng, mdib, cat, memo)
         if base is None:
             return None
         base['abort_at'] = rng.choice(['start', 'middle', 'end'])
@@ -509,10 +544,13 @@ def _x_descr_delete(mdib, op, rng, ap):
     d = mdib.descriptions.handle.get_one(op['handle'], allow_none=True)
     parent = d.parent_handle if d is not None else None
     with mdib.descriptor_transaction() as mgr:
+        _maybe_abort(op, 'start')
         if op.get('iface') == 'entity':
             mgr.remove_entity(mdib.entities.by_handle(op['handle']))
         else:
             mgr.remove_descriptor(op['handle'])
+        _maybe_abort(op, 'middle')
+        _maybe_abort(op, 'end')
     ap.deleted |= sub
     ap.touched_descr |= sub | {parent}
     ap.touched_states |= sub | {parent}
@@ -555,6 +593,34 @@ def _x_parent_child(mdib, op, rng, ap):
                 mgr.remove_descriptor(child)
     ap.touched_descr |= {parent, child} | ap.deleted
     ap.touched_states |= {parent, child} | ap.deleted
+
+
+def _x_descr_multi(mdib, op, rng, ap):
+    if op['sub'] == 'recreate_in_one':
+        ap.expect = 'reject'
+    for step in op['steps']:
+        if step[0] == 'delete':
+            ap.deleted |= _subtree(mdib, step[1])
+            d = mdib.descriptions.handle.get_one(step[1], allow_none=True)
+            if d is not None:
+                ap.touched_descr.add(d.parent_handle)
+    with mdib.descriptor_transaction() as mgr:
+        _maybe_abort(op, 'start')
+        for i, step in enumerate(op['steps']):
+            if step[0] == 'create':
+                d = _new_numeric(mdib, step[1], step[2], rng)
+                st = mdib.data_model.mk_state_container(d)
+                mutate_state(st, rng)
+                mgr.add_descriptor(d, state_container=st)
+                ap.created.add(step[1])
+                ap.touched_descr |= {step[1], step[2]}
+            elif step[0] == 'delete':
+                mgr.remove_descriptor(step[1])
+            if i == 0:
+                _maybe_abort(op, 'middle')
+        _maybe_abort(op, 'end')
+    ap.touched_descr |= ap.deleted
+    ap.touched_states |= ap.touched_descr
 
 
 def _x_descr_with_state(mdib, op, rng, ap):
@@ -625,7 +691,7 @@ def _x_reject(mdib, op, rng, ap):
 
 _EXEC = {'metric': _x_state, 'alert': _x_state, 'component': _x_state, 'operational': _x_state, 'rt': _x_state,
          'context': _x_context, 'location': _x_location, 'descr_update': _x_descr_update, 'descr_create': _x_descr_create,
-         'descr_delete': _x_descr_delete, 'descr_parent_child': _x_parent_child, 'descr_with_state': _x_descr_with_state,
+         'descr_delete': _x_descr_delete, 'descr_multi': _x_descr_multi, 'descr_parent_child': _x_parent_child, 'descr_with_state': _x_descr_with_state,
          'empty': _x_empty, 'unget': _x_unget, 'reject': _x_reject}
 
 
